@@ -50,6 +50,19 @@ def et0_spike(rng, spec):
     return True
 
 
+def low_et0(rng, spec):
+    """A few in-season days with a reference ET below the 0.1 mm/day at which prepare_weather
+    clips files (a table built by the user is not clipped): cold, foggy, calm days."""
+    p0 = first_planting(spec)
+    L = crop_len_days(spec["crop"]["name"])
+    eps = spec["weather"].setdefault("episodes", [])
+    for _ in range(int(rng.integers(1, 4))):
+        eps.append({"var": "ReferenceET", "from": fmt(p0 + dt.timedelta(days=int(rng.integers(20, max(21, L - 10))))),
+                    "days": int(rng.integers(1, 4)), "value": float(pick(rng, [0.03, 0.05, 0.08]))})
+    spec["weather"]["et_floor"] = 0.02
+    return True
+
+
 def add_years(d, n):
     try:
         return d.replace(year=d.year + n)
@@ -374,6 +387,11 @@ def fm_spec(rng, p_mulch=0.25, p_bunds=0.25, p_inhb=0.15, p_cn=0.2, cn=None):
     if chance(rng, p_bunds):
         fm.update(bunds=True, z_bund=float(pick(rng, [0.05, 0.1, 0.15, 0.3])),
                   bund_water=float(pick(rng, [0, 20, 100, 500])))
+    elif chance(rng, 0.2):
+        # bund settings left in place while the bunds themselves are switched off
+        fm.update(bunds=False, z_bund=float(pick(rng, [0.1, 0.25])), bund_water=float(pick(rng, [0, 50])))
+    if "mulches" not in fm and chance(rng, 0.1):
+        fm.update(mulches=False, mulch_pct=float(pick(rng, [50, 100])), f_mulch=0.5)
     if chance(rng, p_inhb):
         fm.update(sr_inhb=True)
     if chance(rng, p_cn):
@@ -396,6 +414,8 @@ def gw_spec(rng, start, end, depths=(0.3, 0.8, 1.5, 2.5, 6.0, 30.0), p_multi=0.4
         for j in range(1, len(vals)):
             if chance(rng, 0.3):
                 vals[j] = vals[j - 1]       # a plateau: the table did not move between two observations
+        if chance(rng, 0.25):
+            vals[0] = max(1, int(round(vals[0])))     # a whole number of metres, typed as an int
         if chance(rng, 0.3):
             # a monitoring record that is longer than the simulated window
             if chance(rng, 0.6):
@@ -406,13 +426,16 @@ def gw_spec(rng, start, end, depths=(0.3, 0.8, 1.5, 2.5, 6.0, 30.0), p_multi=0.4
                 vals = vals + [round(max(0.1, base + float(rng.normal(0, 0.6))), 2)]
         return {"method": method, "dates": [fmt(start + dt.timedelta(days=o)) for o in offs],
                 "values": vals}
-    return {"method": "Constant", "dates": [fmt(start)], "values": [float(pick(rng, list(depths)))]}
+    v = float(pick(rng, list(depths)))
+    return {"method": "Constant", "dates": [fmt(start)], "values": [int(v) if (v >= 1 and v == int(v) and chance(rng, 0.5)) else v]}
 
 
 def co2_spec(rng, y0, y1):
     r = rng.random()
     if r < 0.6:
         return None
+    if r < 0.66:
+        return {"constant_auto": True}
     if r < 0.8:
         c = {"constant": float(pick(rng, [250, 369.41, 400, 550, 800, 2500]))}
         if rng.random() < 0.25:
